@@ -171,7 +171,7 @@ pub open spec fn interest(name: Seq<char>, macros: Seq<RustLogMacro>, k: int) ->
         ("C03.positions,C17.positions", "__it0.rest().len() > 0 ==> hw <= __it0.rest()[0].start"),
         ("C13.all", "view_entries(result@) == tree_entries(top.children, inp, *config, top.children.len() - __it0.rest().len())"),
         ("C05.where", LINECOL),
-        ("C03.entries,C05.entries,C06.entries,C11.filter,C14.where", "view_asp(result@, Aspect::Where) == tree_asp(top.children, inp, *config, top.children.len() - __it0.rest().len(), Aspect::Where)"),
+        ("C03.entries,C05.entries,C06.entries,C11.filter,C14.where,C13.pos", "view_asp(result@, Aspect::Where) == tree_asp(top.children, inp, *config, top.children.len() - __it0.rest().len(), Aspect::Where)"),
         ("C13.kind,C14.where", "view_asp(result@, Aspect::Kind) == tree_asp(top.children, inp, *config, top.children.len() - __it0.rest().len(), Aspect::Kind)"),
         ("C12.extract", "view_asp(result@, Aspect::RefString) == tree_asp(top.children, inp, *config, top.children.len() - __it0.rest().len(), Aspect::RefString)"),
         ("C13.existing", "view_asp(result@, Aspect::RefKv) == tree_asp(top.children, inp, *config, top.children.len() - __it0.rest().len(), Aspect::RefKv)"),
@@ -206,7 +206,7 @@ pub open spec fn interest(name: Seq<char>, macros: Seq<RustLogMacro>, k: int) ->
          " && g.children[1] == ma && ma.rule == Rule::macro_args && is_boundary(inp, ma.start)"
          " && !directive_before(inp, g.children[0].start, ignore_name()) && interest(decode_utf8(text(inp, g.children[0])), %s)" % NMAC),
         ("C13.all", "view_entries(result@) == tree_entries(top.children, inp, *config, idx)"),
-        ("C03.entries,C05.entries,C06.entries,C11.filter,C14.where", "view_asp(result@, Aspect::Where) == tree_asp(top.children, inp, *config, idx, Aspect::Where)"),
+        ("C03.entries,C05.entries,C06.entries,C11.filter,C14.where,C13.pos", "view_asp(result@, Aspect::Where) == tree_asp(top.children, inp, *config, idx, Aspect::Where)"),
         ("C13.kind,C14.where", "view_asp(result@, Aspect::Kind) == tree_asp(top.children, inp, *config, idx, Aspect::Kind)"),
         ("C12.extract", "view_asp(result@, Aspect::RefString) == tree_asp(top.children, inp, *config, idx, Aspect::RefString)"),
         ("C13.existing", "view_asp(result@, Aspect::RefKv) == tree_asp(top.children, inp, *config, idx, Aspect::RefKv)"),
@@ -269,7 +269,7 @@ pub open spec fn interest(name: Seq<char>, macros: Seq<RustLogMacro>, k: int) ->
                   "                        reveal_strlit(\" = \"); reveal_strlit(\", \"); reveal_strlit(\"; \");\n"
                   "                        assert(\" = \"@ =~= seq![' ', '=', ' ']); assert(\", \"@ =~= seq![',', ' ']); assert(\"; \"@ =~= seq![';', ' ']);\n"
                   "                        lemma_asp_push(result@, ref_entry, Aspect::Where);\n"
-                  "                        assert(mask_opt(node_entry(g, inp, *config), Aspect::Where) == Some(mask(view_entry(ref_entry), Aspect::Where))); // [C03.entries,C05.entries,C06.entries,C11.filter,C14.where]\n"
+                  "                        assert(mask_opt(node_entry(g, inp, *config), Aspect::Where) == Some(mask(view_entry(ref_entry), Aspect::Where))); // [C03.entries,C05.entries,C06.entries,C11.filter,C14.where,C13.pos]\n"
                   "                        lemma_asp_push(result@, ref_entry, Aspect::Kind);\n"
                   "                        assert(mask_opt(node_entry(g, inp, *config), Aspect::Kind) == Some(mask(view_entry(ref_entry), Aspect::Kind))); // [C13.kind,C14.where]\n"
                   "                        lemma_asp_push(result@, ref_entry, Aspect::RefString);\n"
@@ -290,7 +290,7 @@ pub open spec fn interest(name: Seq<char>, macros: Seq<RustLogMacro>, k: int) ->
         ("C13.all", "forall|top: PairG| parse_tree_is(code.spec_bytes(), top) ==> "
          "view_entries(result@) == tree_entries(top.children, code.spec_bytes(), *config, top.children.len() as int)"),
         ("C05.where", LINECOL.replace("inp", "code.spec_bytes()")),
-        ("C03.entries,C05.entries,C06.entries,C11.filter,C14.where", "forall|top: PairG| parse_tree_is(code.spec_bytes(), top) ==> "
+        ("C03.entries,C05.entries,C06.entries,C11.filter,C14.where,C13.pos", "forall|top: PairG| parse_tree_is(code.spec_bytes(), top) ==> "
          "view_asp(result@, Aspect::Where) == tree_asp(top.children, code.spec_bytes(), *config, top.children.len() as int, Aspect::Where)"),
         ("C13.kind,C14.where", "forall|top: PairG| parse_tree_is(code.spec_bytes(), top) ==> "
          "view_asp(result@, Aspect::Kind) == tree_asp(top.children, code.spec_bytes(), *config, top.children.len() as int, Aspect::Kind)"),
